@@ -81,9 +81,13 @@ func VerifH_C13_KeepAlive() {
 	timeout := verifNondetDur("timeout")
 	if verifSymbolic() {
 		verifAssume(verifAnd(verifAnd(interval > 0, interval <= 1<<40), verifAnd(timeout > 0, timeout <= 1<<40)))
-		if verifParam("timeout_lt_interval", 1) == 1 {
+		switch verifParam("timeout_lt_interval", 1) {
+		case 1:
 			// a ping is classified before the next tick is due (dropped ticks are outside the claim)
 			verifAssume(timeout < interval)
+		case 2:
+			// answers may be slower than the interval and still in time
+			verifAssume(verifAnd(timeout > interval, timeout <= 4*interval))
 		}
 	} else {
 		if interval <= 0 || interval > 50*1000*1000 {
@@ -152,6 +156,16 @@ func VerifH_C13_KeepAlive() {
 	}
 	// classification of the last ping
 	n := len(cli.outcome)
+	if userCancelled && !cli.stopped && len(cli.starts) > 0 {
+		// cancelled while the last ping had not used up its timeout: the context's error, never a ping timeout
+		lastStart := cli.starts[len(cli.starts)-1]
+		within := tEnd-lastStart < int64(timeout)
+		lo := cli.outcome[len(cli.outcome)-1]
+		if lo == 1 || lo == 2 {
+			verifAssert(verifImplies(within, !errors.Is(err, ErrPingTimeout)), "C13.cancel_is_not_ping_timeout")
+			verifAssert(verifImplies(within, errors.Is(err, context.Canceled)), "C13.cancel_reports_context_error")
+		}
+	}
 	if userCancelled || cli.stopped {
 		verifReach("cancelled")
 		// cancelled before the classification: the context's error, not a ping timeout
